@@ -252,7 +252,9 @@ def build(features, pid="P1", seed=0):
         direction("some unknown words", m3)
     if "pedal" in f:
         part.add(sc.SustainPedalDirection(line=False), B.t(m1), B.t(m1 + 2))
-        part.add(sc.SustainPedalDirection(line=True, staff=(2 if "two_staves" in f else None)), B.t(m3), B.t(m3 + 1))
+        # (one sustain pedal cannot be down twice: with the pedal held across the barline into m3 the second one starts after that is released)
+        late = 1 if "pedal_barline" in f else 0
+        part.add(sc.SustainPedalDirection(line=True, staff=(2 if "two_staves" in f else None)), B.t(m3 + late), B.t(m3 + 1 + late))
     if "pedal_barline" in f:
         part.add(sc.SustainPedalDirection(line=False), B.t(m2 + 2), B.t(m3 + 1))
     if "tempo" in f:
